@@ -103,7 +103,7 @@ Definition py_int (s : str) : option Z :=
   end.
 
 (* ---------------------------------------------------------------------- *)
-(* resolve_pointer *)
+(* resolve_pointer: values; the legacy int()-lenient resolver (sentinel); the current resolver follows the RFC reference below *)
 Inductive value :=
 | VJ (j : json)     (* a JSON value *)
 | VUnres            (* the UNRESOLVABLE sentinel *)
@@ -133,7 +133,9 @@ Definition pointer_tokens (p : str) : list str := tl (split_on SLASH p).
 
 Definition of_opt (o : option json) : value := match o with Some j => VJ j | None => VUnres end.
 
-Definition resolve_pointer (doc : json) (p : str) : value :=
+(* REGRESSION SENTINEL - resolve_pointer as it was BEFORE /repo commit 5f4626e6 (array tokens through Python int(), ValueError
+   caught): kept with its refutation witnesses so that a return to int() leniency is recognised; no longer the model of the code *)
+Definition resolve_pointer_int_lenient (doc : json) (p : str) : value :=
   match p with
   | [] => VJ doc
   | c :: _ => if N.eqb c SLASH then of_opt (walk step_py doc (map unescape (pointer_tokens p))) else VUnres
@@ -198,6 +200,37 @@ Definition lenient_hit (doc : json) (p : str) : bool :=
   match p with
   | [] => false
   | c :: _ => N.eqb c SLASH && lenient_hit_walk doc (map unescape (pointer_tokens p))
+  end.
+
+(* ----- core.transforms.resolve_pointer as it is now (commits 5f4626e6, 6e969657) -----
+   An array token is an index only if token.isascii() and token.isdigit() and it is 0 or has no leading zero
+   (= canonical_index); then target[int(token)] with IndexError and ValueError (int() beyond sys.int_max_str_digits)
+   both caught: UNRESOLVABLE. *)
+Inductive wres := WOk (j : json) | WUnres.
+Definition w_of_opt (o : option json) : wres := match o with Some j => WOk j | None => WUnres end.
+
+Definition step_impl (target : json) (tok : str) : wres :=
+  match target with
+  | JObj kvs => w_of_opt (assoc_get tok kvs)
+  | JArr l => match canonical_index tok with
+              | None => WUnres
+              | Some i => if (i <? Z.of_nat (length l))%Z then w_of_opt (nth_error l (Z.to_nat i))
+                          else WUnres          (* IndexError, or ValueError for > 4300 digits: both caught.  Modelling assumption:
+                                                  a Python list has fewer than 10^4300 elements, so such an index is out of range *)
+              end
+  | _ => WUnres
+  end.
+
+Fixpoint walk_w (target : json) (toks : list str) : wres :=
+  match toks with
+  | [] => WOk target
+  | t :: r => match step_impl target t with WOk x => walk_w x r | other => other end
+  end.
+
+Definition resolve_pointer (doc : json) (p : str) : wres :=
+  match p with
+  | [] => WOk doc
+  | c :: _ => if N.eqb c SLASH then walk_w doc (map unescape (pointer_tokens p)) else WUnres
   end.
 
 (* ---------------------------------------------------------------------- *)
@@ -407,6 +440,9 @@ Inductive outcome :=
 | OParseErr (e : perr)     (* the expression is rejected by the parser *)
 | ORaise.                  (* another exception during evaluation (TypeError, JSONDecodeError, IndexError) *)
 
+Definition ptr_outcome (w : wres) : outcome :=
+  match w with WOk j => OVal (VJ j) | WUnres => OVal VUnres end.
+
 (* decimal rendering of integers *)
 Fixpoint uint_digits (u : Decimal.uint) : str :=
   match u with
@@ -472,7 +508,7 @@ Section Eval.
     | NReqBody None => OVal (c_body cx)
     | NReqBody (Some p) =>
         match c_body cx with
-        | VJ doc => OVal (resolve_pointer doc (tl p))
+        | VJ doc => ptr_outcome (resolve_pointer doc (tl p))
         | VNotSet => match tl p with [] => OVal VNotSet | _ => OVal VUnres end
         | other => OVal other
         end
@@ -485,7 +521,7 @@ Section Eval.
     | NRespBody p =>
         match r_body cx with
         | None => ORaise
-        | Some doc => match p with None => OVal (VJ doc) | Some p => OVal (resolve_pointer doc (tl p)) end
+        | Some doc => match p with None => OVal (VJ doc) | Some p => ptr_outcome (resolve_pointer doc (tl p)) end
         end
     end.
 
@@ -960,13 +996,13 @@ Section Denote.
         end
     end.
 
-  (* the pointer of the expression is applied without the leniency of the implementation *)
+  (* the pointer of the expression has valid escapes *)
   Definition ptr_strict (e : rexpr) : bool :=
     match e with
     | RReqBody (Some p) =>
-        match c_body cx with VJ doc => negb (lenient_hit doc p) && valid_escapes p && short_tokens p | _ => true end
+        match c_body cx with VJ _ => valid_escapes p | _ => true end
     | RRespBody (Some p) =>
-        match r_body cx with Some doc => negb (lenient_hit doc p) && valid_escapes p && short_tokens p | None => true end
+        match r_body cx with Some _ => valid_escapes p | None => true end
     | _ => true
     end.
 End Denote.
